@@ -207,6 +207,7 @@ Proof.
           unfold world_apply. destruct (active _); [|reflexivity]. destruct (o_world o (s_nw s)). reflexivity. }
         destruct Hc as [[-> ->]|(k & _ & Hk)]; [simpl; exact E1|]. rewrite <- E1.
         clear - Hk. revert s1 s2 r Hk. induction k as [|k IH]; intros s1 s2 r Hk; simpl in Hk; [injection Hk as <- _; reflexivity|].
+        destruct (ckpt_missing o s1) as [j|]; [injection Hk as <- _; reflexivity|].
         destruct (schedule_new_task o s1) as [s3 r3] eqn:E3.
         assert (Hc3 : s_count s3 = s_count s1).
         { unfold schedule_new_task in E3. destruct (o_sug o (s_ns s1)) as [|cfg ck|id cfg]; try (injection E3 as <- _; reflexivity).
@@ -291,7 +292,10 @@ Qed.
    the poll did not list it and its entry was Failed before; [sd] is the status dictionary of the ECbFetch event *)
 Theorem failures_recorded st st' done :
   process_new_results prm o st = (st', done, None) -> NoDup (s_running st) ->
-  exists sd rs, In (ECbFetch sd rs) (s_trace st') /\ map fst sd = poll_order (s_running st) (o_ord o (s_np st)) /\
+  exists sd rs,
+    (exists post, s_trace st' = post ++ ECbFetch sd rs :: EBFetch (map fst sd) :: s_trace st /\
+                  forallb (fun e => result_ev e || status_ev e) post = true) /\
+    map fst sd = poll_order (s_running st) (o_ord o (s_np st)) /\
     forall t, aget t (s_smap st') = Some Failed <->
               (In (t, Failed) sd \/ (~ In t (map fst sd) /\ aget t (s_smap st) = Some Failed)).
 Proof.
@@ -304,14 +308,14 @@ Proof.
   set (st1' := emit ev st1).
   destruct (Nat.ltb (n_workers prm) (length (s_running st1'))); [discriminate|].
   destruct (loop1 o sd rs st1' []) as [st2 done2] eqn:E1.
-  pose proof (loop1_ext _ _ _ _ _ _ _ E1) as (n1 & T1 & _).
+  pose proof (loop1_ext _ _ _ _ _ _ _ E1) as (n1 & T1 & P1).
   pose proof (loop1_budget _ _ _ _ _ _ _ E1) as (C1 & _).
   assert (K1 : keys_ok done2 (map fst sd)).
   { eapply (loop1_keys o sd rs); [exact E1| |split; [constructor|intros x []]]. intros r Hr. rewrite Hsdk. apply Hrs. exact Hr. }
   assert (V1 : forall t, aget t done2 <> Some Failed).
   { intros t Hx. apply (loop1_vals _ _ _ _ _ _ _ E1) in Hx. discriminate. }
   destruct (loop2 sd st2 done2) as [[st3 done3] err3] eqn:E2. unfold loop2 in E2.
-  pose proof (loop2_ext _ _ _ _ _ _ _ E2) as (n2 & T2 & _).
+  pose proof (loop2_ext _ _ _ _ _ _ _ E2) as (n2 & T2 & P2).
   pose proof (loop2_budget sd _ _ _ _ _ _ _ E2) as (C2 & _).
   destruct err3; [discriminate|]. intro H. injection H as <- <-.
   assert (Hndsd : NoDup (map fst sd)) by (rewrite Hsdk; apply poll_order_NoDup; exact Hnd).
@@ -320,7 +324,12 @@ Proof.
   exists sd, (map (fun r => (fst (fst r), snd (fst r))) rs).
   destruct (status_update_frame (aupdate sd done3) rs st3) as (_ & _ & _ & F4 & F5 & _).
   split; [|split; [exact Hsdk|]].
-  - rewrite F4, T2, T1. apply in_or_app. right. apply in_or_app. right. unfold st1'. simpl. left. reflexivity.
+  - exists (n2 ++ n1). split.
+    + rewrite F4, T2, T1, <- app_assoc. unfold st1'. cbn [s_trace emit]. destruct A as (_ & _ & -> & _).
+      unfold st0. cbn [s_trace emit set_np]. rewrite Hsdk. reflexivity.
+    + rewrite forallb_app. apply andb_true_intro. split; apply forallb_forall; intros e He.
+      * rewrite forallb_forall in P2. rewrite (P2 e He). apply orb_true_r.
+      * rewrite forallb_forall in P1. rewrite (P1 e He). reflexivity.
   - intro t. rewrite F5.
     assert (Hsm : s_smap st3 = s_smap st).
     { destruct C2 as (_ & _ & -> & _). destruct C1 as (_ & _ & -> & _). unfold st1'. simpl.
@@ -348,3 +357,203 @@ Proof.
 Qed.
 
 End Eval.
+
+(* ---- the whole-run failure count ---------------------------------------------------------------------------------
+   [lastobs t tr]: the status trial t was last OBSERVED in on the (newest-first) trace: by the status dictionary a poll
+   handed to the callbacks (ECbFetch), or InProgress by its own start / resume. *)
+Fixpoint lastobs (t : nat) (tr : list event) : option status :=
+  match tr with
+  | [] => None
+  | e :: tr' =>
+      match e with
+      | ECbFetch sd _ => match aget t sd with Some s => Some s | None => lastobs t tr' end
+      | EBStart t' _ _ => if Nat.eqb t' t then Some InProgress else lastobs t tr'
+      | EBResume t' _ => if Nat.eqb t' t then Some InProgress else lastobs t tr'
+      | _ => lastobs t tr'
+      end
+  end.
+Definition obs_failed (tr : list event) (t : nat) : bool :=
+  match lastobs t tr with Some Failed => true | _ => false end.
+Definition obs_free (e : event) : bool :=
+  match e with ECbFetch _ _ | EBStart _ _ _ | EBResume _ _ => false | _ => true end.
+
+Lemma lastobs_app_free t new tr : forallb obs_free new = true -> lastobs t (new ++ tr) = lastobs t tr.
+Proof.
+  induction new as [|e new IH]; simpl; [reflexivity|]. intro H. apply andb_prop in H. destruct H as [He Hn].
+  destruct e; simpl in He; try discriminate; apply IH; exact Hn.
+Qed.
+
+Lemma ne_eqb (a b : nat) : a <> b -> Nat.eqb b a = false.
+Proof. intro H. apply Nat.eqb_neq. auto. Qed.
+
+Section FailCount.
+Variable prm : params.
+Variable o : oracles.
+
+Definition FInv (st : state) : Prop :=
+  forall t, aget t (s_smap st) = Some Failed <-> lastobs t (s_trace st) = Some Failed.
+
+Lemma FInv_quiet st st' new :
+  s_trace st' = new ++ s_trace st -> forallb obs_free new = true -> s_smap st' = s_smap st -> FInv st -> FInv st'.
+Proof. intros Ht Hn Hs HF t. rewrite Ht, Hs, lastobs_app_free by exact Hn. apply HF. Qed.
+
+Lemma poll_FInv st st' : poll prm o st = (st', None) -> NoDup (s_running st) -> FInv st -> FInv st'.
+Proof.
+  unfold poll. destruct (process_new_results prm o (emit ECbLoopStart st)) as [[st1 done] err1] eqn:E.
+  destruct err1 as [e|]; [discriminate|]. intros H Hnd HF. injection H as <-.
+  apply failures_recorded in E; [|exact Hnd]. destruct E as (sd & rs & (post & Htr & Hpost) & Hk & Hiff).
+  assert (Hndsd : NoDup (map fst sd)) by (rewrite Hk; apply poll_order_NoDup; exact Hnd).
+  intro t. cbn [s_smap s_trace set_running set_doneall]. rewrite Hiff, Htr.
+  rewrite lastobs_app_free.
+  2:{ apply forallb_forall. intros e He. rewrite forallb_forall in Hpost. specialize (Hpost e He).
+      destruct e; simpl in Hpost; try discriminate; reflexivity. }
+  cbn [lastobs s_trace emit s_smap]. destruct (aget t sd) as [v|] eqn:Eg.
+  - assert (Hin : In t (map fst sd)) by (apply in_map_iff; exists (t, v); split; [reflexivity|apply aget_In; exact Eg]).
+    split.
+    + intros [Hx|[Hx _]]; [|contradiction]. apply In_aget_nodup in Hx; [|exact Hndsd]. congruence.
+    + intro Hx. injection Hx as ->. left. apply aget_In. exact Eg.
+  - assert (Hnin : ~ In t (map fst sd)) by (apply aget_none_notin; exact Eg).
+    rewrite <- (HF t). split.
+    + intros [Hx|[_ Hx]]; [|exact Hx]. exfalso. apply Hnin. apply in_map_iff. exists (t, Failed). auto.
+    + intro Hx. right. split; assumption.
+Qed.
+
+(* a start or a resume writes InProgress for its trial and shows InProgress on the trace *)
+Lemma FInv_start st st' t new :
+  s_trace st' = new ++ s_trace st -> s_smap st' = aset t InProgress (s_smap st) ->
+  lastobs t (new ++ s_trace st) = Some InProgress ->
+  (forall x, x <> t -> lastobs x (new ++ s_trace st) = lastobs x (s_trace st)) -> FInv st -> FInv st'.
+Proof.
+  intros Ht Hs Hl Ho HF x. rewrite Ht, Hs. destruct (Nat.eq_dec x t) as [->|Hne].
+  - rewrite aget_aset_same, Hl. split; discriminate.
+  - rewrite aget_aset_other by exact Hne. rewrite Ho by exact Hne. apply HF.
+Qed.
+
+Lemma schedule_new_task_FInv st st' r : schedule_new_task o st = (st', r) -> FInv st -> FInv st'.
+Proof.
+  unfold schedule_new_task. intros H HF. set (n := s_ntrials st) in *.
+  destruct (o_sug o (s_ns st)) as [|cfg ck|id cfg].
+  - injection H as <- <-. apply (FInv_quiet st _ [ESSuggest n SNothing]); auto.
+  - injection H as <- <-.
+    apply (FInv_start st _ n [ECbStart n; ESAdd n; EBStart n cfg ck; ESSuggest n (SStart cfg ck)]); auto.
+    + simpl. rewrite Nat.eqb_refl. reflexivity.
+    + intros x Hx. simpl. rewrite ne_eqb by auto. reflexivity.
+  - destruct (Nat.ltb id n).
+    2:{ injection H as <- <-. apply (FInv_quiet st _ [ESSuggest n (SResume id cfg)]); auto. }
+    destruct (b_td _); injection H as <- <-;
+      try (apply (FInv_quiet st _ [ESSuggest n (SResume id cfg)]); auto; fail).
+    apply (FInv_start st _ id [ECbResume id; EBResume id cfg; ESSuggest n (SResume id cfg)]); auto.
+    + simpl. rewrite Nat.eqb_refl. reflexivity.
+    + intros x Hx. simpl. rewrite ne_eqb by auto. reflexivity.
+Qed.
+
+Lemma schedule_k_FInv k : forall st st' r, schedule_k o k st = (st', r) -> FInv st -> FInv st'.
+Proof.
+  induction k as [|k IH]; intros st st' r H HF; simpl in H; [injection H as <- <-; exact HF|].
+  destruct (ckpt_missing o st) as [j|].
+  { injection H as <- <-. apply (FInv_quiet st _ [ESSuggest (s_ntrials st) (o_sug o (s_ns st))]); auto. }
+  destruct (schedule_new_task o st) as [st1 r1] eqn:E1. apply schedule_new_task_FInv in E1; [|exact HF].
+  destruct r1; [eauto| |]; injection H as <- <-; exact E1.
+Qed.
+
+Lemma schedule_new_tasks_FInv st st' r : schedule_new_tasks prm o st = (st', r) -> FInv st -> FInv st'.
+Proof.
+  apply (schedule_new_tasks_inv prm o FInv).
+  - intros s0 s1 [->|[busy Hb]] HF; [exact HF|]. apply busy_look_spec in Hb.
+    destruct Hb as (_ & _ & Ht & _ & _ & Hs & _). apply (FInv_quiet s0 s1 [EBBusy busy]); auto.
+  - intros s0 HF. apply (FInv_quiet s0 _ [ECbSleep]); auto.
+  - intros k s0 s2 r2 Hk _. eapply schedule_k_FInv; eauto.
+Qed.
+
+Lemma iteration_end_FInv st st' c : iteration_end prm o st = (st', c) -> FInv st -> FInv st'.
+Proof.
+  unfold iteration_end, stop_condition. intros H HF. injection H as <- _.
+  eapply (FInv_quiet st _ [_; _]); auto; reflexivity.
+Qed.
+
+(* at every iteration boundary and at every normal exit of the loop: the status map says Failed for exactly the trials
+   whose last observation on the trace is Failed *)
+Theorem run_loop_FInv fuel st x :
+  run_loop prm o fuel = (st, x) -> x = LFuel \/ x = LExit None -> FInv st.
+Proof.
+  unfold run_loop. destruct (stop_condition prm o (emit ECbTuningStart init_state)) as [st0 c0] eqn:E0. intros H Hx.
+  revert Hx. eapply (loop_rule2 prm o
+    (fun s _ _ => binv prm s /\ FInv s) (fun s _ _ => binv prm s /\ FInv s)
+    (fun s x => x = LFuel \/ x = LExit None -> FInv s)); [| | | | | |exact H|].
+  - intros s c ex [_ B] _. exact B.
+  - intros s c ex [_ B] _ _. exact B.
+  - intros s c ex s' err (A & B) _ Ep. destruct err as [e|].
+    + intros [Hx|Hx]; discriminate.
+    + split; [eapply poll_budget; eauto|]. eapply poll_FInv; eauto. apply A.
+  - intros s c ex [_ B] _ _ _. exact B.
+  - intros s c ex s' c' (A & B) _ _ Ei. split.
+    + eapply iteration_end_budget; [exact Ei|apply binv_emit; exact A].
+    + eapply iteration_end_FInv; [exact Ei|]. apply (FInv_quiet s _ [ECbSleep]); auto.
+  - intros s c ex s2 r (A & B) _ Es.
+    pose proof (schedule_new_tasks_FInv _ _ _ Es B) as HF2.
+    pose proof (schedule_new_tasks_budget _ _ _ _ _ Es A) as (Hb2 & _).
+    destruct r.
+    + intros s3 c' Ei. split; [eapply iteration_end_budget; eauto|eapply iteration_end_FInv; eauto].
+    + intros s3 c' Ei. split; [eapply iteration_end_budget; eauto|eapply iteration_end_FInv; eauto].
+    + intros [Hx|Hx]; discriminate.
+  - unfold stop_condition in E0. injection E0 as <- _. split.
+    + unfold binv. simpl. repeat split; [constructor|lia|intros t Ht; lia].
+    + intro t. simpl. split; discriminate.
+Qed.
+
+(* counting: with one status-map entry per started trial, in id order *)
+Lemma num_status_seq p : forall (m : list (nat * status)) a n, map fst m = seq a n ->
+  num_status p m = length (filter (fun t => match aget t m with Some s => p s | None => false end) (seq a n)).
+Proof.
+  unfold num_status. induction m as [|[k v] m IH]; intros a n Hk.
+  - destruct n; [reflexivity|discriminate].
+  - destruct n as [|n]; [discriminate|]. simpl in Hk. injection Hk as -> Hk.
+    set (F := fun t => match aget t ((a, v) :: m) with Some s => p s | None => false end).
+    assert (Hf : filter F (seq (S a) n) =
+                 filter (fun t => match aget t m with Some s => p s | None => false end) (seq (S a) n)).
+    { apply filter_ext_in. intros t Ht. apply in_seq in Ht. unfold F. cbn [aget]. rewrite ne_eqb by lia. reflexivity. }
+    assert (Ha : F a = p v) by (unfold F; cbn [aget]; rewrite Nat.eqb_refl; reflexivity).
+    specialize (IH (S a) n Hk). cbn [seq filter snd]. rewrite Ha, Hf.
+    destruct (p v); cbn [length]; rewrite IH; reflexivity.
+Qed.
+
+Lemma FInv_count st : map fst (s_smap st) = seq 0 (s_ntrials st) -> FInv st ->
+  num_status is_failed (s_smap st) = length (filter (obs_failed (s_trace st)) (seq 0 (s_ntrials st))).
+Proof.
+  intros Hk HF. rewrite (num_status_seq is_failed _ 0 (s_ntrials st) Hk). f_equal. apply filter_ext. intro t.
+  unfold obs_failed. specialize (HF t).
+  destruct (aget t (s_smap st)) as [[]|] eqn:E1; destruct (lastobs t (s_trace st)) as [[]|] eqn:E2; simpl; try reflexivity;
+    try (destruct HF as [HF _]; specialize (HF eq_refl); discriminate);
+    try (destruct HF as [_ HF]; specialize (HF eq_refl); discriminate).
+Qed.
+
+(* WHOLE-RUN failure count, at every iteration boundary and at a normal loop exit *)
+Theorem run_loop_failed_count fuel st x :
+  run_loop prm o fuel = (st, x) -> x = LFuel \/ x = LExit None ->
+  num_status is_failed (s_smap st) = length (filter (obs_failed (s_trace st)) (seq 0 (s_ntrials st))).
+Proof.
+  intros H Hx. apply FInv_count; [|eapply run_loop_FInv; eauto]. apply run_loop_sinv in H. apply H.
+Qed.
+
+(* ... and when run() returns after a loop that ended without an exception (normally, or with the failure-limit
+   error raised after stop_all): the count the failure limit is compared with *)
+Theorem run_failed_count fuel st out st0 :
+  run prm o fuel = (st, out) -> run_loop prm o fuel = (st0, LExit None) ->
+  num_status is_failed (s_smap st) = length (filter (obs_failed (s_trace st)) (seq 0 (s_ntrials st))).
+Proof.
+  intros H Hl. unfold run in H. rewrite Hl in H.
+  pose proof (finalize_spec _ _ _ _ _ _ H) as (_ & Hn & _ & _ & Hsm & (stops & Htr & Hst) & _).
+  pose proof (run_loop_FInv _ _ _ Hl (or_intror eq_refl)) as HF.
+  pose proof (run_loop_sinv _ _ _ _ _ Hl) as (S1 & _).
+  apply FInv_count; [rewrite Hsm, Hn, mark_stopped_keys; exact S1|].
+  intro t. rewrite Hsm, Htr.
+  change (stops ++ EBStopAll :: ECbTuningEnd :: s_trace st0) with (stops ++ [EBStopAll; ECbTuningEnd] ++ s_trace st0).
+  rewrite app_assoc.
+  rewrite lastobs_app_free.
+  2:{ rewrite forallb_app. apply andb_true_intro. split; [|reflexivity]. apply forallb_forall. intros e He.
+      rewrite forallb_forall in Hst. specialize (Hst e He). destruct e; try discriminate; reflexivity. }
+  rewrite <- (HF t). unfold mark_stopped. clear. induction (s_smap st0) as [|[k v] m IH]; simpl; [tauto|].
+  destruct (Nat.eqb t k); [|exact IH]. destruct v; simpl; split; congruence.
+Qed.
+
+End FailCount.
